@@ -99,8 +99,8 @@ def h_attr_value_sym(case: int, v: str) -> bool:
 # ---------------------------------------------------------------------------
 # tokenizer round trip on concrete trees
 
-_TEXTS = ["t", "a<b", "x & y", "</div>", "<!--", "&amp;", " s ", "l1\nl2", 7, 1.5]
-_ATTRS = [[], [("id", "i")], [("class", "a b"), ("title", 'q"<>&\'\n')], [("data-x", ""), ("hidden", True), ("y", 3)]]
+_TEXTS = ['say "hi"', "a<b", "x & y", "</div>", "<!--", "&amp;", " s ", "l1\nl2", 7, 1.5]
+_ATTRS = [[], [("id", 'say "hi"')], [("class", "a b"), ("title", 'q"<>&\'\n')], [("data-x", ""), ("hidden", True), ("y", 3)]]
 _BLOCK = ["div", "p", "section", "blockquote", "table", "figcaption"]
 _INLINE = ["span", "a", "b", "em", "textarea", "sub"]
 
